@@ -3827,20 +3827,26 @@ class NameCheckVisitor(node_visitor.ReplacingNodeVisitor):
                 )
                 return AnyValue(AnySource.error)
 
+        # a literal template may carry metadata, e.g. the value of `(fmt := "%d")`
+        template = left.value if isinstance(left, AnnotatedValue) else left
         if (
             isinstance(op, ast.Mod)
-            and isinstance(left, KnownValue)
-            and isinstance(left.val, (bytes, str))
+            and isinstance(template, KnownValue)
+            and isinstance(template.val, (bytes, str))
         ):
             value, replacement_node = format_strings.check_string_format(
                 left_node,
-                left.val,
+                template.val,
                 right_node,
                 right,
                 self._show_error_if_checking,
                 self,
             )
-            if replacement_node is not None and isinstance(source_node, ast.BinOp):
+            if (
+                replacement_node is not None
+                and isinstance(source_node, ast.BinOp)
+                and template is left
+            ):
                 replacement = self.replace_node(source_node, replacement_node)
                 self._show_error_if_checking(
                     source_node,
